@@ -1005,7 +1005,7 @@ fn once_case(cx: &mut Ctx, cell: &'static str, key: &'static str, cj: Value, sta
     let res = guarded(|| write(&path));
     let tr = trace::stop();
     match res { Err(p) => { cx.sum.fail(cell, class_of(&json!({}), "writer", &p), cj, &format!("writer panicked: {}", p)); return; }
-                Ok(Err(e)) => { cx.sum.dist(&format!("{}_write_refused", key)); let _ = e; let _ = std::fs::remove_dir_all(&dir); return; }
+                Ok(Err(e)) => { cx.sum.dist(&format!("{}_write_refused", key)); if std::env::var("ZV_C19_DEBUG").is_ok() { eprintln!("refused: {}", e); } let _ = std::fs::remove_dir_all(&dir); return; }
                 Ok(Ok(())) => {} }
     let mut sim = Disk::new();
     for op in &tr { apply(&mut sim, op); }
